@@ -131,7 +131,13 @@ def skey(f, _memo=None):
         _memo = {}
     if f in _memo:
         return _memo[f]
-    r = (f.node_type(), payload_key(f), tuple(skey(a, _memo) for a in f.args()))
+    if f.node_type() == op.ARRAY_VALUE:
+        # the stored order of the assignments of an array value follows object addresses: as a structure it is a map
+        args = f.args()
+        pairs = sorted(((skey(args[i], _memo), skey(args[i + 1], _memo)) for i in range(1, len(args), 2)), key=repr)
+        r = (f.node_type(), payload_key(f), (skey(args[0], _memo),) + tuple(pairs))
+    else:
+        r = (f.node_type(), payload_key(f), tuple(skey(a, _memo) for a in f.args()))
     _memo[f] = r
     return r
 
